@@ -1005,6 +1005,10 @@ def run_property(prop, tier, seed):
     elif prop == "C18":
         names = subjects_where(cat, lambda e: e["caps"]["heap"])
         region_stage(out, "heap", prop, names, 1, 4 if q else 5, 0, 3 if q else 4, ["push", "clear"])
+        # the accounting after copies and merges (a copy that later stores less than it is handed falls below the bound)
+        cl = subjects_where(cat, lambda e: e["caps"]["heap"] and e["caps"]["clone"] and
+                            (q is False or shape_has(e["shape"], "collapse") or shape_has(e["shape"], "cip")))
+        region_stage(out, "heap-copies", prop, cl, 2, 4, 1, 3, ["push", "clone", "clone_from"] + ([] if q else ["clear", "merge"]))
         stack_stage(out, "flatstack", prop, stack_names(), 4, 0, 3, ["copy", "extend", "clear", "from_iter"])
         ic_stage(out, "index-containers", prop, ["vec", "list", "opt"], "full", 4, 0)
         contract_trace_stage(out, ["C18"], q, seed)
